@@ -60,7 +60,10 @@ static int npair = 0, nfork = 0;
 int __wrap_socketpair(int d, int t, int p, int sv[2]){ sv[0] = DFD0 + 1000 + 2*npair; sv[1] = sv[0] + 1; npair++; memset(KK(sv[0]), 0, sizeof K[0]); printf("Y socketpair %d %d\n", sv[0], sv[1]); return 0; }
 pid_t __wrap_fork(void){ int pid = 5000 + nfork++; printf("Y fork %d\n", pid); return pid; }
 int __wrap_kill(pid_t pid, int sig){ printf("Y kill %d %d\n", (int)pid, sig); return 0; }
-pid_t __wrap_waitpid(pid_t pid, int *wstat, int opt){ printf("Y waitpid %d\n", (int)pid); if (wstat) *wstat = SIGTERM; return pid; }
+/* a child that was sent SIGTERM a moment ago has not exited yet: only a waitpid() that really waits reaps it; with WNOHANG the call
+   returns 0, nothing is reaped and the child becomes a zombie when it dies (the line differs from the model's, the predicates see
+   a child that is never waited for) */
+pid_t __wrap_waitpid(pid_t pid, int *wstat, int opt){ if (opt & WNOHANG) { printf("Y waitpid-nohang %d\n", (int)pid); return 0; } printf("Y waitpid %d\n", (int)pid); if (wstat) *wstat = SIGTERM; return pid; }
 int __wrap_setsockopt(int fd, int l, int o, const void *v, socklen_t n){ return 0; }
 int __wrap_connect(int fd, const struct sockaddr *a, socklen_t n){ printf("Y connect %d%s\n", k_connect, (!KK(fd)->nonblock) ? " BLOCKS" : ""); if (k_connect == 0) return 0; errno = k_connect == 1 ? EINPROGRESS : ENETUNREACH; return -1; }
 int __wrap_getsockopt(int fd, int l, int o, void *v, socklen_t *n){ printf("Y soerr %d\n", k_soerr); *(int *)v = k_soerr ? ECONNREFUSED : 0; return 0; }
